@@ -4,7 +4,7 @@ usage: reseed.py <seed>   — prints one line per seeded change; does not touch 
 import sys, os, subprocess, json, re, glob
 seed = sys.argv[1] if len(sys.argv) > 1 else "4242"
 only = sys.argv[2:]
-env = dict(os.environ, VERIF_SEED=seed)
+env = dict(os.environ, VERIF_SEED=seed, VERIF_EVIDENCE_DIR="/verif/.build/evidence-scratch")
 def sh(c, cwd=None):
     return subprocess.run(c, shell=True, cwd=cwd, env=env, stdout=subprocess.PIPE, stderr=subprocess.STDOUT, text=True).stdout
 bad = 0
